@@ -9,6 +9,7 @@ mod disk;
 mod cluster;
 mod sched;
 mod crash;
+mod s3;
 
 fn main() {
     let args: Vec<String> = std::env::args().collect();
@@ -25,6 +26,7 @@ fn main() {
         "disk" => disk::run(&args[2], &workdir),
         "cluster" => cluster::run(&args[2], &workdir),
         "sched" => sched::run(&args[2], &workdir),
+        "s3" => s3::run(&args[2], &workdir),
         "crashb" => crash::run_b(&args[2], &args[3], args.get(4).map(|s| s.as_str()).unwrap_or("A")),
         "crashc" => crash::run_c(&args[2]),
         "crashc11" => crash::run_c11(&args[2]),
